@@ -6,8 +6,10 @@ import (
 	"io"
 	"log"
 	"os"
+	"os/exec"
 	"path/filepath"
 	"sort"
+	"strings"
 	"testing"
 	"time"
 
@@ -190,6 +192,12 @@ func (r *runner) note(o *Outcome) {
 			r.res.Probes["carrier-positioned-behind-a-header"]++
 		}
 	}
+	if c.Chunk.Empty > 0 {
+		r.res.Faults["empty-read"] += o.Src.Reads / (2 * c.Chunk.Empty)
+	}
+	if len(c.Prelude) > 10 {
+		r.res.Probes["run-after-many-failing-runs"]++
+	}
 	if o.Src.EOFWithData > 0 {
 		r.res.Probes["eof-delivered-with-the-last-bytes"]++
 	}
@@ -225,9 +233,102 @@ func (r *runner) cachedExec(c *RunConfig) *Outcome {
 	return o
 }
 
+// FreshResult is what a fresh child process reports back for one case.
+type FreshResult struct {
+	Vs            []Violation   `json:"vs"`
+	Returned      bool          `json:"returned"`
+	Verdict       bool          `json:"verdict"`
+	Err           string        `json:"err"`
+	ErrNil        bool          `json:"err_nil"`
+	NamedItem     int           `json:"named_item"`
+	Sim           simctl.Result `json:"sim"`
+	Src           SrcStats      `json:"src"`
+	CallsAtReturn int           `json:"calls_at_return"`
+	Executions    int           `json:"executions"`
+}
+
+var inFreshChild = os.Getenv("VERIF_FRESH_CFG") != ""
+
+// evaluateFresh runs the whole evaluation of one case in a fresh process.
+func (r *runner) evaluateFresh(c *RunConfig) ([]Violation, *Outcome) {
+	dir, err := os.MkdirTemp(".", "fresh-")
+	if err != nil {
+		r.t.Fatal(err)
+	}
+	defer os.RemoveAll(dir)
+	if abs, aerr := filepath.Abs(dir); aerr == nil {
+		dir = abs
+	}
+	cfgp := filepath.Join(dir, "cfg.json")
+	outp := filepath.Join(dir, "out.json")
+	b, _ := json.Marshal(c)
+	if err := os.WriteFile(cfgp, b, 0644); err != nil {
+		r.t.Fatal(err)
+	}
+	cmd := exec.Command(os.Args[0], "-test.run", "TestFreshChild", "-test.timeout", "30m")
+	cmd.Env = append(os.Environ(), "VERIF_FRESH_CFG="+cfgp, "VERIF_FRESH_OUT="+outp, "VERIF_JOB=")
+	cmd.Dir = dir
+	ob, err := cmd.CombinedOutput()
+	rb, rerr := os.ReadFile(outp)
+	var fr FreshResult
+	if rerr != nil || json.Unmarshal(rb, &fr) != nil {
+		// the child died: a panic in a goroutine the simulator does not own, a
+		// fatal runtime error. That is a finding about the code under test.
+		msg := string(ob)
+		if i := strings.Index(msg, "panic:"); i >= 0 {
+			msg = msg[i:]
+		} else if i := strings.Index(msg, "fatal error:"); i >= 0 {
+			msg = msg[i:]
+		}
+		if len(msg) > 1200 {
+			msg = msg[:1200]
+		}
+		if strings.Contains(string(ob), "SIMCTL WATCHDOG") || err == nil {
+			r.t.Fatalf("fresh child gave no result: %v\n%s", err, msg)
+		}
+		o := &Outcome{Cfg: c, NamedItem: -1, CallsAtReturn: -1}
+		return []Violation{v(c.Prop, "process-crash", "a fresh process running this case died: %v: %s", err, msg)}, o
+	}
+	r.res.Executions += fr.Executions
+	r.res.Steps += int64(fr.Sim.Steps)
+	r.res.Choices += int64(fr.Sim.Choices)
+	o := &Outcome{Cfg: c, Returned: fr.Returned, Verdict: fr.Verdict, Err: fr.Err, ErrNil: fr.ErrNil, NamedItem: fr.NamedItem, Sim: fr.Sim, Src: fr.Src, CallsAtReturn: fr.CallsAtReturn}
+	r.res.Probes["case-run-in-a-fresh-process"]++
+	return fr.Vs, o
+}
+
+// TestFreshChild is the body of a fresh child process: one case, nothing else.
+func TestFreshChild(t *testing.T) {
+	cfgp := os.Getenv("VERIF_FRESH_CFG")
+	if cfgp == "" {
+		t.Skip("not a fresh child")
+	}
+	b, err := os.ReadFile(cfgp)
+	if err != nil {
+		t.Fatal(err)
+	}
+	var c RunConfig
+	if err := json.Unmarshal(b, &c); err != nil {
+		t.Fatal(err)
+	}
+	res := &BatchResult{Prop: c.Prop, Faults: map[string]int{}, Probes: map[string]int{}}
+	r := &runner{t: t, job: &Job{Prop: c.Prop}, res: res, keys: map[uint64]bool{}, seqCache: map[uint64]*Outcome{}}
+	vs, o := r.evaluate(&c)
+	fr := FreshResult{Vs: vs, Returned: o.Returned, Verdict: o.Verdict, Err: o.Err, ErrNil: o.ErrNil, NamedItem: o.NamedItem, Sim: o.Sim, Src: o.Src, CallsAtReturn: o.CallsAtReturn, Executions: res.Executions}
+	fr.Src.Log = nil
+	ob, _ := json.Marshal(fr)
+	if err := os.WriteFile(os.Getenv("VERIF_FRESH_OUT"), ob, 0644); err != nil {
+		t.Fatal(err)
+	}
+}
+
 // evaluate executes one case (and its comparison run where the property needs
-// one) and returns the violations plus the primary outcome.
+// one) and returns the violations plus the primary outcome. In a fresh child
+// the observed run goes first, the comparison run after it.
 func (r *runner) evaluate(c *RunConfig) ([]Violation, *Outcome) {
+	if c.Fresh && !inFreshChild && r.job.Mode != "race" {
+		return r.evaluateFresh(c)
+	}
 	switch c.Prop {
 	case "C07":
 		o := r.exec(c)
@@ -240,8 +341,14 @@ func (r *runner) evaluate(c *RunConfig) ([]Violation, *Outcome) {
 		}
 		return OracleC07(o, twin), o
 	case "C08":
-		seq := r.cachedExec(seqTwin(c))
-		o := r.exec(c)
+		var seq, o *Outcome
+		if inFreshChild {
+			o = r.exec(c)
+			seq = r.cachedExec(seqTwin(c))
+		} else {
+			seq = r.cachedExec(seqTwin(c))
+			o = r.exec(c)
+		}
 		if o.Sim.MainStep > 0 && len(o.Sim.Leaked) == 0 {
 			r.res.Probes["fast-completed-clean"]++
 		}
@@ -250,11 +357,21 @@ func (r *runner) evaluate(c *RunConfig) ([]Violation, *Outcome) {
 		o := r.exec(c)
 		return OracleC09(o), o
 	case "C10":
+		// the reference: the simulated device, full-buffer reads, EOF on a
+		// Read of its own
 		d := *c
 		d.Chunk = ChunkSpec{Kind: "full"}
 		d.ReadYield = 1
-		full := r.cachedExec(&d)
-		o := r.exec(c)
+		d.Carrier, d.CarrierOffset = "", 0
+		d.Stream.EOFData = false
+		var full, o *Outcome
+		if inFreshChild {
+			o = r.exec(c)
+			full = r.cachedExec(&d)
+		} else {
+			full = r.cachedExec(&d)
+			o = r.exec(c)
+		}
 		return OracleC10(full, o), o
 	case "C11":
 		o := r.exec(c)
